@@ -6,6 +6,7 @@ import (
 	"fmt"
 	"go/ast"
 	"go/constant"
+	"sort"
 	"go/token"
 	"go/types"
 	"strings"
@@ -201,6 +202,10 @@ func (x *Exec) applyContract(f *frame, n *node, c *Contract, callee *ssa.Functio
 	// havoc
 	post := st
 	if !c.Pure {
+		if len(c.Modifies) == 0 && !c.Trusted {
+			// an in-package contract without a frame: the caller knows nothing but the postconditions
+			x.havocOne(scPre, &ast.Ident{Name: "heap"}, post)
+		}
 		x.havocModifies(scPre, c.Modifies, post)
 		// allocation clock may advance
 		nc := Fresh("clock", SInt)
@@ -314,11 +319,19 @@ func (x *Exec) havocOne(sc *specCtx, e ast.Expr, st *State) {
 			case id.Name == "region":
 				// region("name"): whole region by name
 				name := strings.Trim(exprString(call.Args[0]), `"`)
-				srt, ok := regionSorts[name]
-				if !ok {
-					return // never touched in this function
+				// every region with this name prefix (e.g. all components of a map type)
+				var hit []string
+				for k := range regionSorts {
+					if strings.HasPrefix(k, name) {
+						hit = append(hit, k)
+					}
 				}
-				st.setRegion(name, Fresh("havoc."+name, srt))
+				sort.Strings(hit)
+				for _, k := range hit {
+					st.setRegion(k, Fresh("havoc."+k, regionSorts[k]))
+				}
+				lazySeq++
+				st.lazy = append(st.lazy, lazyHavoc{name, lazySeq})
 				return
 			}
 			if g, ok := x.S.Ghosts[id.Name]; ok {
@@ -389,6 +402,11 @@ func (sc *specCtx) location(e ast.Expr) *Ptr {
 					if a, ok := in.(*ssa.Alloc); ok && a.Comment == e.Name {
 						if !a.Heap {
 							return &Ptr{Kind: PLocal, Alloc: a, RootT: deref(a.Type())}
+						}
+						if sc.n != nil {
+							if rv, ok := sc.f.regs[sc.f.regKey(a, sc.n.Ctx)]; ok {
+								return x.ptrOf(Value{T: a.Type(), C: rv.C, P: rv.P})
+							}
 						}
 					}
 				}
@@ -578,6 +596,7 @@ func (x *Exec) copyBuiltin(st *State, d, s Value) Value {
 
 func (f *frame) invCtx(l *loopInfo, st *State, n *node) *specCtx {
 	sc := f.x.newSpecCtx(f, n, st, f.x.entryState)
+	sc.loop = l
 	for k, v := range f.loopLets[loopLetKey(l, n)] {
 		sc.vars[k] = v
 	}
@@ -625,7 +644,8 @@ func (f *frame) checkInvariants(l *loopInfo, st *State, kind string, n *node) {
 	for _, inv := range l.Spec.Invariants {
 		sc := f.invCtx(l, st, n)
 		g := sc.evalBool(inv.Expr)
-		f.x.oblige(fmt.Sprintf("%s#loop%d", kind, l.Ordinal), inv.Tags, st.pc, g, firstPos(l.Head), inv.Text)
+		o := f.x.oblige(fmt.Sprintf("%s#loop%d", kind, l.Ordinal), inv.Tags, st.pc, g, firstPos(l.Head), inv.Text)
+		o.Reveal = inv.Reveal
 	}
 }
 
@@ -683,6 +703,7 @@ func firstPos(b *ssa.BasicBlock) token.Pos {
 // havocLoop forgets everything the loop body may change.
 func (f *frame) havocLoop(l *loopInfo, st *State, n *node) {
 	x := f.x
+	precise := l.Spec != nil && len(l.Spec.Modifies) > 0
 	regions := map[string]bool{}
 	all := false
 	var visitFn func(fn *ssa.Function, blocks map[*ssa.BasicBlock]bool, depth int)
@@ -779,7 +800,7 @@ func (f *frame) havocLoop(l *loopInfo, st *State, n *node) {
 		}
 	}
 	for k, t := range st.heap {
-		if k == clockName {
+		if k == clockName || precise {
 			continue
 		}
 		hit := all
@@ -800,6 +821,24 @@ func (f *frame) havocLoop(l *loopInfo, st *State, n *node) {
 		sc := f.invCtx(l, st, n)
 		x.havocModifies(sc, l.Spec.Modifies, st)
 	}
+	if precise {
+		// the loop's frame is checked at every back edge against this state
+		if f.loopHeads == nil {
+			f.loopHeads = map[string]*State{}
+		}
+		f.loopHeads[loopLetKey(l, n)] = st.clone()
+	}
+}
+
+// loopFrameCheck: at a back edge, everything outside the loop's modifies clause equals the head state.
+func (f *frame) loopFrameCheck(l *loopInfo, st *State, n *node) {
+	head := f.loopHeads[loopLetKey(l, n)]
+	if head == nil {
+		return
+	}
+	hv := head.clone()
+	sc := f.invCtx(l, hv, n)
+	f.x.frameObligations(fmt.Sprintf("loop-frame#loop%d", l.Ordinal), f, head, hv, sc, l.Spec.Modifies, st, head.clock())
 }
 
 // storeTarget classifies the destination of a store: a local cell, or a region prefix.
@@ -1089,4 +1128,106 @@ func (x *Exec) unboxPointer(v Value, arg ssa.Value) Value {
 	}
 	fail("errors.As target is not a directly boxed pointer")
 	return Value{}
+}
+
+
+// frameCheck: everything that existed at entry and is not named by the
+// function's modifies clause is unchanged at exit. Emitted only when the
+// contract declares a frame (callers of a frameless contract havoc everything).
+func (x *Exec) frameCheck(f *frame, out *State) {
+	c := x.C
+	if c == nil || (len(c.Modifies) == 0 && !c.Pure) {
+		return
+	}
+	entry := x.entryState
+	hv := entry.clone()
+	sc := x.newSpecCtx(f, nil, hv, nil)
+	sc.body = false
+	x.frameObligations("frame", f, entry, hv, sc, c.Modifies, out, Var(clockName, SInt))
+}
+
+// frameObligations: out may differ from entry only at the locations named by
+// mods (evaluated in entry) and in objects allocated after entry.
+func (x *Exec) frameObligations(kind string, f *frame, entry, hv *State, sc *specCtx, mods []*Clause, out *State, c0 *Term) {
+	before := map[string]*Term{}
+	for k, v := range hv.heap {
+		before[k] = v
+	}
+	x.havocModifies(sc, mods, hv)
+	var names []string
+	for k := range out.heap {
+		names = append(names, k)
+	}
+	sort.Strings(names)
+	for _, name := range names {
+		if name == clockName || strings.HasPrefix(name, "ghost.visited") {
+			continue
+		}
+		cur := out.heap[name]
+		ent := entry.region(name, cur.S)
+		if cur == ent {
+			continue
+		}
+		hav, touched := hv.heap[name]
+		if _, had := before[name]; !had && touched {
+			before[name] = ent
+		}
+		if touched && hav != before[name] && hav.Op == "var" {
+			continue // whole region in the frame
+		}
+		if cur.S.Kind != 2 {
+			x.oblige(kind, nil, out.pc, Eq(cur, ent), f.fn.Pos(), "unchanged outside the modifies clause: "+name)
+			continue
+		}
+		r := BVar("r?fr", SInt)
+		var goal *Term
+		if touched && hav != before[name] {
+			// indices named by modifies: walk the store chain of the havocked copy
+			var outer []*Term
+			type inner struct {
+				ref  *Term
+				idxs []*Term
+			}
+			var inners []inner
+			t := hav
+			for t != before[name] && t.Op == "store" {
+				idx, val := t.Args[1], t.Args[2]
+				// partial havoc of a nested array: store chain over select(base, idx)
+				var idxs []*Term
+				v := val
+				for v.Op == "store" {
+					idxs = append(idxs, v.Args[1])
+					v = v.Args[0]
+				}
+				if len(idxs) > 0 && v.Op == "select" && v.Args[1] == idx {
+					inners = append(inners, inner{idx, idxs})
+				} else {
+					outer = append(outer, idx)
+				}
+				t = t.Args[0]
+			}
+			if t != before[name] {
+				continue // not a recognisable store chain: treated as wholly in the frame
+			}
+			cond := []*Term{Le(r, c0)}
+			for _, o := range outer {
+				cond = append(cond, Ne(r, o))
+			}
+			for _, in := range inners {
+				cond = append(cond, Ne(r, in.ref))
+			}
+			goal = Implies(And(cond...), Eq(Select(cur, r), Select(ent, r)))
+			for _, in := range inners {
+				i := BVar("i?fr", SInt)
+				ic := []*Term{Le(in.ref, c0)}
+				for _, ix := range in.idxs {
+					ic = append(ic, Ne(i, ix))
+				}
+				x.oblige(kind, nil, out.pc, Forall([]*Term{i}, Implies(And(ic...), Eq(Select(Select(cur, in.ref), i), Select(Select(ent, in.ref), i)))), f.fn.Pos(), "unchanged outside the modifies clause (elements): "+name)
+			}
+		} else {
+			goal = Implies(Le(r, c0), Eq(Select(cur, r), Select(ent, r)))
+		}
+		x.oblige(kind, nil, out.pc, Forall([]*Term{r}, goal), f.fn.Pos(), "unchanged outside the modifies clause: "+name)
+	}
 }
